@@ -76,6 +76,12 @@ func runC12(c *Ctx, idx int, o *Obs) {
 	R := gen.Tree(r, gen.Opts{N: n, Shape: gen.Pick(r, "random", "random", "random", "caterpillar", "balanced", "star", "broom"),
 		RootDeg: gen.Pick(r, 0, 2, 3, 3, 6), MultiP: gen.Pick(r, 0.0, 0.3, 0.6), Lens: gen.Pick(r, "all", "none"), LenCls: "len",
 		InnerNameP: gen.Pick(r, 0.0, 0.0, 0.5)})
+	if idx%60 == 11 || idx%60 == 13 {
+		// one node with several hundred neighbours (counts beyond one byte), most of them in one state
+		n = 262 + r.Intn(120)
+		R = gen.Tree(r, gen.Opts{N: n, Shape: gen.Pick(r, "star", "star", "broom"), RootDeg: gen.Pick(r, 0, 3), Lens: "none", LenCls: "len"})
+		o.Ev("large_polytomy", 1)
+	}
 	text := R.Newick()
 	tips := R.SortedTips()
 	if idx%3 == 2 {
@@ -104,6 +110,9 @@ func runC12(c *Ctx, idx int, o *Obs) {
 	}
 	states := map[string]string{}
 	mode := gen.Pick(r, "uniform", "skewed", "clustered")
+	if n >= 257 {
+		mode = "skewed"
+	}
 	for i, tp := range R.Tips() { // traversal order => clustered assignments follow clades
 		var s int
 		switch mode {
@@ -111,7 +120,7 @@ func runC12(c *Ctx, idx int, o *Obs) {
 			s = r.Intn(k)
 		case "skewed":
 			s = 0
-			if r.Intn(4) == 0 {
+			if (n < 257 && r.Intn(4) == 0) || (n >= 257 && r.Intn(100) == 0) {
 				s = r.Intn(k)
 			}
 		default:
@@ -121,6 +130,18 @@ func runC12(c *Ctx, idx int, o *Obs) {
 			}
 		}
 		states[tp] = alphabet[s]
+	}
+	if n >= 257 && k >= 2 {
+		// exactly 255..258 tips in one state, the others (at least 4) spread over the other states
+		maj := 255 + r.Intn(4)
+		tl := R.Tips()
+		for i, j := range r.Perm(len(tl)) {
+			if i < maj {
+				states[tl[j]] = alphabet[0]
+			} else {
+				states[tl[j]] = alphabet[1+r.Intn(k-1)]
+			}
+		}
 	}
 	// the alphabet gotree derives is the set of states in use
 	used := map[string]bool{}
@@ -381,6 +402,20 @@ func c12ASR(c *Ctx, r *rand.Rand, idx int, o *Obs, text string, tips []string) {
 	}
 	for j := 0; j < L; j++ {
 		cur := codes[r.Intn(len(codes))]
+		if len(tips) >= 257 && j%2 == 0 {
+			// large polytomies: one character on all but a handful of tips (more than 255 neighbours agree)
+			// exactly 255..258 tips carry one character, the others (at least 4) another one
+			other := codes[r.Intn(len(codes))]
+			maj := 255 + r.Intn(4)
+			for i, k := range r.Perm(len(tips)) {
+				if i < maj {
+					seqs[tips[k]][j] = cur
+				} else {
+					seqs[tips[k]][j] = other
+				}
+			}
+			continue
+		}
 		for _, tp := range tips {
 			if r.Intn(3) == 0 {
 				cur = codes[r.Intn(len(codes))]
